@@ -564,6 +564,66 @@ def boundary_model_filter(case):
     return t[0] == "txt" and t[1] in ("dv", "dvb")
 
 
+# ---- several containers back to back in ONE stream / file (read_from(fm_binary, std::istream&) at non-zero offsets) ---
+
+MULTI_KINDS = ["dv", "dvb", "sv", "dm", "csr", "bcsr", "bm", "cscr"]
+
+
+def multi_obj(rng, kind, dt):
+    # in-memory types dt/dt (double/u64 or float/u32); the file types are always double/u64, so nothing is lost
+    return "%s %d %s" % (kind, dt, kind_args(rng, kind, dyadic, True, dt == 8, dt == 8))
+
+
+def gen_multi(rng):
+    k = rng.choice([2, 2, 3, 4])
+    njunk = rng.choice([0, 0, 1, 7, 8, 13, 100])
+    style = rng.random()
+    objs = []
+    if style < 0.35:
+        # equal record sizes, different contents: a reader that re-reads offset 0 stays *silent* here
+        kind = rng.choice(["dv", "dm", "csr", "sv"])
+        dt = rng.choice([4, 8])
+        if kind == "dv":
+            n = rng.choice([1, 2, 3, 5])
+            objs = ["dv %d %s" % (dt, fl([Fraction(100 * i + j + 1, 2) for j in range(n)])) for i in range(k)]
+        elif kind == "dm":
+            objs = ["dm %d 2 3 %s" % (dt, fl([Fraction(10 * i + j, 4) for j in range(6)])) for i in range(k)]
+        elif kind == "sv":
+            objs = ["sv %d 9 1 %s %s" % (dt, nl([i, i + 3, 8]), fl([Fraction(i + 1), Fraction(-i - 1, 2), Fraction(7 * i + 1, 8)]))
+                    for i in range(k)]
+        else:
+            objs = ["csr %d 3 3 0 %s %s %s" % (dt, nl([0, 1, 1, 2]), nl([i % 3, (i + 1) % 3]), fl([Fraction(i + 1), Fraction(2 * i + 1, 2)]))
+                    for i in range(k)]
+    else:
+        for _ in range(k):
+            objs.append(multi_obj(rng, rng.choice(MULTI_KINDS), rng.choice([4, 8])))
+    return "multi %d %d %d %s" % (rng.choice([0, 0, 1]), njunk, k, " ".join(objs))
+
+
+def multi_corpus():
+    out = []
+    a = "dv 8 2 1/1 2/1"
+    b = "dv 8 2 3/1 4/1"
+    c = "csr 8 3 3 0 4 0 1 1 2 2 0 2 2 1/1 2/1"
+    d = "sv 4 5 1 2 1 3 2 1/2 3/2"
+    e = "dm 8 2 2 4 1/1 2/1 3/1 4/1"
+    f = "dvb 4 4 1/1 2/1 3/1 4/1"
+    g = "bcsr 8 2 2 3 0 1 2 2 0 1 12 1/1 2/1 3/1 4/1 5/1 6/1 7/1 8/1 9/1 10/1 11/1 12/1"
+    h = "bm 8 3 3 2 1 2 6 1/1 2/1 3/1 4/1 5/1 6/1"
+    i = "cscr 8 3 3 2 0 1 1 2 1 1/1 1 1"
+    z = "dv 8 0"
+    for use_file in (0, 1):
+        for njunk in (0, 5):
+            out.append("multi %d %d 2 %s %s" % (use_file, njunk, a, b))          # equal sizes, different contents
+            out.append("multi %d %d 2 %s %s" % (use_file, njunk, b, a))
+            out.append("multi %d %d 3 %s %s %s" % (use_file, njunk, a, c, b))    # unequal sizes, mixed kinds
+            out.append("multi %d %d 4 %s %s %s %s" % (use_file, njunk, c, d, e, a))
+            out.append("multi %d %d 4 %s %s %s %s" % (use_file, njunk, f, g, h, i))
+            out.append("multi %d %d 3 %s %s %s" % (use_file, njunk, z, a, z))    # length-0 vector first and last
+            out.append("multi %d %d 2 %s %s" % (use_file, njunk, c, c.replace("1/1 2/1", "5/1 7/2")))
+    return out
+
+
 def gen_cases(rng, count):
     cases = []
     for _ in range(count):
@@ -576,8 +636,10 @@ def gen_cases(rng, count):
             cases.append(gen_txt(rng, True))
         elif k < 0.80:
             cases.append(gen_txt(rng, False))
-        elif k < 0.82:
+        elif k < 0.81:
             cases.append(gen_dfio(rng))
+        elif k < 0.83:
+            cases.append(gen_multi(rng))
         elif k < 0.84:
             cases.append(gen_cpmiss(rng))
         elif k < 0.85:
@@ -610,7 +672,7 @@ CORPUS = [
     "txt bcsr mtx 4 4 5 2 6 0 0 0 1 1 2 2 1 0 12 1/8 2/1 3/1 4/1 5/1 6/1 7/1 8/1 9/1 10/1 11/1 25/2",
     "txt bcsr mtx 8 4 1 3 2 0 2 2 0 2 12 1/1 0/1 3/1 4/1 5/1 6/1 7/1 8/1 0/1 10/1 11/1 12/1",
     "dfio - -", "dfio 00 -", "dfio - ff", "dfio 0102030405060708 464541543343444600",
-] + cpx_corpus() + width_corpus() + shape_corpus()
+] + cpx_corpus() + width_corpus() + shape_corpus() + multi_corpus()
 
 # Inputs on which the property FAILS on the current tree (genuine FEAT defects, see KNOWN_FINDINGS.json and
 # DESIGN.md section 8). They are executed and judged like every other input; each is matched against an *open*
@@ -931,6 +993,43 @@ def oracle(case, out):
             if op == "txt" and eq != 1:
                 return "operator== reports the read-back %s as different" % kind
             return None
+        if op == "multi":
+            a.nat()
+            njunk, k = a.nat(), a.nat()
+            objs = []
+            for _ in range(k):
+                kind, dt = a.tok(), a.nat()
+                objs.append((kind, dt, skip_kind_args(kind, a)))
+            if is_abnormal(out):
+                return "reading %d containers back from one stream ended with %s" % (k, out)
+            o = Tk(out)
+            assert o.tok() == "B"
+            hexs = o.tok()
+            b = bytes.fromhex("" if hexs == "-" else hexs)
+            # independent framing: the stream is junk + k records, each as long as its own size word says
+            pos, ends = njunk, []
+            for _ in range(k):
+                if pos + 8 > len(b):
+                    return "stream too short for %d records" % k
+                pos += struct.unpack("<Q", b[pos:pos + 8])[0]
+                ends.append(pos)
+            if pos != len(b):
+                return "records cover %d of %d stream bytes" % (pos, len(b))
+            for i, (kind, dt, vals) in enumerate(objs):
+                assert o.tok() == "P"
+                p = o.nat()
+                got = o.dump()
+                assert o.tok() == "EQ"
+                eq = o.nat()
+                if p != ends[i]:
+                    return "after object %d the stream is at %d, its record ends at %d" % (i, p, ends[i])
+                flat = [x for l in got["els"] for x in l]
+                if flat != vals:
+                    return "object %d (%s) read back with the values %s, written %s" % (i, kind, flat[:8], vals[:8])
+                if eq != 1:
+                    return "operator== reports object %d (%s) read from offset %d as different" % (
+                        i, kind, ends[i - 1] if i else njunk)
+            return None
         if op == "cpmiss":
             a.tok()
             n = a.nat()
@@ -1021,6 +1120,8 @@ def nontrivial(case):
         return t[1] != "-" or t[2] != "-"
     if op == "cpmiss":
         return True
+    if op == "multi":
+        return True
     if op == "raw":
         a = Tk(case)
         a.tok(), a.nat(), a.nat()
@@ -1097,6 +1198,8 @@ def describe(case):
                                   ("empty-row" if any(rp[i] == rp[i + 1] for i in range(r)) else "full-rows")))
         elif t[5] == "0":
             keys.append("length-0")
+    elif t[0] == "multi":
+        keys.append("multi:%s k=%s %s" % ("file" if t[1] == "1" else "stringstream", t[3], "junk" if t[2] != "0" else "offset0"))
     elif t[0] == "cp":
         keys.append("objects:" + t[1])
     elif t[0] == "cpx":
